@@ -50,14 +50,44 @@ RULE = ("enveloped: contents of 0,1,7,8,9,15,16,17,31,32,33,100,1000,4096 bytes 
         "padding, DES-CBC and AES-128-GCM, SM2 (both orderings) and RSA recipients, 1-3 recipients, stranger certificate, recipient certificate "
         "with another private key; signed: SM2 signers with SM3 (both OIDs) and SHA-256, with/without signed attributes, attached/detached, "
         "library-made RSA signed data; content / signing-time attribute / signature / certificate altered; PKCS#12: passwords empty, ASCII, "
-        "non-ASCII BMP, non-BMP; SM2, ECDSA P-256, RSA keys; SM2 and RSA certificates; wrong passwords; every length octet and sampled (thorough: "
+        "non-ASCII BMP, non-BMP, and passwords of 1..100 characters (ASCII and CJK) with wrong passwords sharing a prefix of 16/31/32/33/64 characters, differing in one position, in the last character, shorter / longer by one; SM2, ECDSA P-256, RSA keys; SM2 and RSA certificates; wrong passwords; every length octet and sampled (thorough: "
         "all) positions of the containers replaced by b^1, b^0x80 (thorough also 00, ff). White-box leg: RC2 with key lengths 1..128 and effective key bits 1..1024, both directions; BMPString "
         "encode/decode incl. surrogates, U+FFFD, non-BMP runes, odd lengths, unterminated strings; PKCS#12 KDF with v in {1,3,8,20,21,64,128}, salt/password "
-        "lengths 0..200 incl. all-0xff blocks, iteration counts -5..7, sizes 0..100. Non-trivial = every case; distinct = distinct case text")
+        "lengths 0..200 incl. all-0xff blocks, iteration counts -5..7, sizes 0..100; the real pbkdf(sha1Sum, 20, 64, ...) against a python implementation of RFC 7292 B.2 for salt / password lengths {0,1,31,32,33,63,64,65,200} and the package's own parameter shapes. Non-trivial = every case; distinct = distinct case text")
 
 
 def nontrivial(f):
     return True
+
+
+def _unhex(s):
+    return b"" if s in ("-", ".", "") else bytes.fromhex(s)
+
+
+def p12_kdf_rfc7292(salt, password, r, ID, n, u=20, v=64):
+    """RFC 7292 Appendix B.2 with SHA-1, written from the RFC (the oracle for the KDS cases)"""
+    import hashlib
+    D = bytes([ID]) * v
+
+    def stretch(x):
+        if not x:
+            return b""
+        L = v * ((len(x) + v - 1) // v)
+        return (x * ((L + len(x) - 1) // len(x)))[:L]
+    I = stretch(salt) + stretch(password)
+    c = (n + u - 1) // u
+    A = b""
+    for i in range(c):
+        Ai = hashlib.sha1(D + I).digest()
+        for _ in range(1, r):
+            Ai = hashlib.sha1(Ai).digest()
+        A += Ai
+        if i < c - 1:
+            B = (Ai * ((v + u - 1) // u))[:v]
+            Bn = int.from_bytes(B, "big") + 1
+            I = b"".join(((int.from_bytes(I[j * v:(j + 1) * v], "big") + Bn) % (1 << (8 * v))).to_bytes(v, "big")
+                         for j in range(len(I) // v))
+    return A[:n]
 
 
 def classify(f, io):
@@ -73,6 +103,8 @@ def classify(f, io):
         return "K:%s:%s" % (f[2], io[0])
     if f[0] == "EC":
         return "EC:%s:%s" % (f[2], io[0])
+    if f[0] == "KDS":
+        return "KDS:" + io[0]
     return f[0] + ":" + io[0]
 
 
@@ -81,6 +113,21 @@ def predicate(f, io):
     if not io or io[0] in ("HANG", "BADCASE"):
         return False, "implementation " + (io[0] if io else "gave no result")
     op = f[0]
+    if op == "KDS":
+        if io[0] != "ok":
+            return False, "pbkdf did not return a key"
+        want = p12_kdf_rfc7292(_unhex(f[2]), _unhex(f[3]), int(f[4]), int(f[5]), int(f[6]))
+        if _unhex(io[1]) != want:
+            return False, ("PKCS#12 key derivation differs from RFC 7292 B.2 (SHA-1) for a salt of %d and a password of %d bytes"
+                           % (len(_unhex(f[2])), len(_unhex(f[3]))))
+        return True, ""
+    if op == "PW":
+        if io[0] == "encerr":
+            return False, "pkcs12.Encode failed"
+        return (io[0] == "err"), ("PKCS#12 bundle encoded with a password of %d characters opens with a different password of %d characters"
+                                  % (len(_unhex(f[3]).decode("utf-8")), len(_unhex(f[4]).decode("utf-8"))))
+    if op == "PL":
+        return (io[0] == "same"), "PKCS#12 round trip with a long password failed (%s)" % io[0]
     if op == "VER":
         # signed-data verification logic: decided by comparison with the extracted model of Verify
         return (io[0] in ("ok", "err")), "Verify did not return"
